@@ -36,6 +36,8 @@ type Prop struct {
 	Rule     string
 	// Exhaustive reports what part of the run enumerated a finite space completely
 	Exhaustive string
+	// Assumptions: what this property's check assumes about external code (evidence.assumptions)
+	Assumptions []string
 }
 
 var props = map[string]*Prop{}
@@ -206,6 +208,7 @@ func main() {
 		"case_fn":             p.CaseFn,
 		"model_fn":            p.ModelFn,
 		"case_type":           p.CaseType,
+		"assumptions":         p.Assumptions,
 	}
 	if err := os.WriteFile(filepath.Join(*out, "stats.json"), mustJSON(stats), 0o644); err != nil {
 		panic(err)
